@@ -151,7 +151,9 @@ def unit_downstream():
         O.append(core.prove_zero('C12/problem/sound', sp.sympify(B['sound']) ** 2 - gam * (gam - 1) * Cv * Tref, [gam > 1], goal_text='sound^2 == gamma (gamma-1) Cv Tref'))
         O.append(core.prove_zero('C12/problem/C0', sp.sympify(B['C0']) * sp.sympify(B['sound']) - sp.sympify(B['c']), [gam > 1], goal_text='C0 == c / sound'))
         O.append(core.prove_zero('C12/problem/P0', sp.sympify(B['P0']) - sp.sympify(B['ar']) * Tref ** 4 / (rho0 * gam * (gam - 1) * Cv * Tref), [gam > 1], goal_text='P0 == a_r Tref^4 / (rho0 sound^2)'))
-        for o in O: o.pop('cex_raw', None)
+        for o in O:
+            o.pop('cex_raw', None)
+            if o['status'] == 'refuted' and o['name'].startswith('C12/problem/') and not o.get('replay'): o['replay'] = BOUNDED % dict(cases=[('ED/rho0=0.5', 'ED_Solver', {'rho0': 0.5}), ('ED/Tref=50_gamma=1.4', 'ED_Solver', {'Tref': 50.0, 'gamma': 1.4})])
     except Unsupported as u_:
         O.append(core.Obl('C12/problem/extraction', 'open', 'extraction', 0.0, detail=str(u_)[:300]))
     return res
@@ -173,13 +175,15 @@ for name, cls, kw in %(cases)r:
     prob = getattr(s, '_%%s__prob' %% cls); pr = getattr(prob, {'ED_Solver': 'ED_profile', 'nED_Solver': 'nED_profile', 'Sn_Solver': 'Sn_profile'}[cls]); g = prob.gamma
     rho, v, p, T, Fr = pr.Density, pr.Speed, pr.Pressure, pr.Tm, pr.Fr
     Tr = getattr(pr, 'Tr', T); Pr = getattr(pr, 'Pr', Tr ** 4 / 3.)
-    mass = rho * v; mom = rho * v * v + p + prob.P0 * Pr
-    en = v * (0.5 * rho * v * v + rho * T / (g * (g - 1.)) + p) + prob.P0 * prob.C0 * Fr
+    # nondimensional constants recomputed here from the instance parameters (not read from the solver)
+    cs2 = g * (g - 1.) * prob.Cv * prob.Tref; P0 = 137.20172 * prob.Tref ** 4 / (prob.rho0 * cs2); C0 = 2.99792458e10 / np.sqrt(cs2)
+    mass = rho * v; mom = rho * v * v + p + P0 * Pr
+    en = v * (0.5 * rho * v * v + rho * T / (g * (g - 1.)) + p) + P0 * C0 * Fr
     for lab, q in (('mass flux', mass), ('total momentum flux', mom), ('total energy flux', en)):
         if rel(q) > 1e-8: bad.append((lab, rel(q), int(np.argmax(np.abs(q - q[0]))), len(q)))
     if abs(mass[0] - prob.M0) > 1e-9 * prob.M0: bad.append(('mass flux != M0', float(mass[0])))
     if abs(T[0] - 1.) > 1e-5 or abs(rho[0] - 1.) > 1e-4: bad.append(('far upstream state is not (1, 1)', float(rho[0]), float(T[0])))
-    M02 = prob.M0 ** 2; P0 = prob.P0; r1, T1 = float(rho[-1]), float(T[-1])
+    M02 = prob.M0 ** 2; r1, T1 = float(rho[-1]), float(T[-1])
     m_ = M02 + r1 * r1 * T1 / g + P0 * r1 * T1 ** 4 / 3. - r1 * (M02 + 1. / g + P0 / 3.)
     e_ = M02 / 2. + r1 * r1 * T1 / (g - 1.) + 4. * P0 * r1 * T1 ** 4 / 3. - r1 * r1 * (M02 / 2. + 1. / (g - 1.) + 4. * P0 / 3.)
     if max(abs(m_), abs(e_)) > 1e-5 * M02: bad.append(('far downstream state violates the radiation-modified jump conditions', m_, e_))
@@ -196,7 +200,8 @@ print(json.dumps({'reproduced': any(v['failures'] for v in out.values()), 'cases
 
 def bounded_cases(tier):
     cs = [('ED/default', 'ED_Solver', {}), ('ED/M0=1.5_embedded_shock', 'ED_Solver', {'M0': 1.5}), ('ED/M0=2_gamma=1.4_Tref=50', 'ED_Solver', {'M0': 2.0, 'gamma': 1.4, 'Tref': 50.0}),
-          ('nED/default', 'nED_Solver', {}), ('nED/M0=3', 'nED_Solver', {'M0': 3.0}), ('nED/M0=1.4_Tref=50_Cv=2e12', 'nED_Solver', {'M0': 1.4, 'Tref': 50.0, 'Cv': 2.0e12})]
+          ('nED/default', 'nED_Solver', {}), ('nED/M0=3', 'nED_Solver', {'M0': 3.0}), ('nED/M0=1.4_Tref=50_Cv=2e12', 'nED_Solver', {'M0': 1.4, 'Tref': 50.0, 'Cv': 2.0e12}),
+          ('ED/rho0=0.5', 'ED_Solver', {'rho0': 0.5}), ('nED/rho0=2', 'nED_Solver', {'rho0': 2.0})]
     if tier != 'quick': cs += [('Sn/default', 'Sn_Solver', {}), ('ED/M0=1.05', 'ED_Solver', {'M0': 1.05}), ('nED/M0=1.05', 'nED_Solver', {'M0': 1.05}), ('nED/M0=5', 'nED_Solver', {'M0': 5.0})]
     return cs
 
